@@ -111,7 +111,10 @@ pub fn run(tier: Tier, seed: u64) -> i32 {
             lists.push(vec![*a, *b]);
         }
     }
-    let core: Vec<usize> = (0..nforms).filter(|f| [0usize, 1, 4, 14].contains(&(f / 2))).collect();
+    let core: Vec<usize> = match tier {
+        Tier::Quick => (0..nforms).filter(|f| [0usize, 1, 4, 14].contains(&(f / 2))).collect(),
+        Tier::Thorough => (0..nforms).collect(),
+    };
     for a in &core {
         for b in &core {
             for c in &core {
